@@ -23,26 +23,45 @@ def scan_trusted(text):
     """Mechanical scan of the generated file for every assumption-introducing construct."""
     out = []
     lines = text.split('\n')
+    cur_impl = ''
     for i, ln in enumerate(lines):
+        m = re.match(r'^\s*impl(?:<[^>]*>)?\s+(.*?)\s*\{', ln)
+        if m:
+            cur_impl = m.group(1)
+        if re.match(r'^\}', ln):
+            cur_impl = ''
+        st = ln.lstrip()
+        if st.startswith('//'):
+            continue
+        kind = None
         for kw in ('external_body', 'assume_specification', 'assume(', 'admit(', 'axiom fn', 'uninterp spec fn',
-                   'external_type_specification', 'external_fn_specification', 'external]'):
-            if kw in ln and not ln.lstrip().startswith('//'):
-                # find the name on this or the next few lines
-                ctx = ' '.join(l.strip() for l in lines[i:i + 3])
-                m = re.search(r'(?:fn|struct|enum|trait|type)\s+(\w+)|\[([\w:<>, ]+)\]\s*\(', ctx)
-                name = (m.group(1) or m.group(2)) if m else ctx[:60]
-                out.append((kw.rstrip('('), name, i + 1))
-                break
+                   'external_type_specification', 'external_fn_specification'):
+            if kw in ln:
+                kind = kw.rstrip('('); break
+        if not kind:
+            continue
+        name = None
+        for k in range(i, min(i + 8, len(lines))):
+            mm = re.search(r'\b(?:fn|struct|enum|trait)\s+(\w+)', lines[k])
+            if mm:
+                name = mm.group(1); break
+            mm = re.search(r'assume_specification.*?\[\s*([^\]]+)\]', lines[k])
+            if mm:
+                name = mm.group(1).strip(); break
+        if name is None:
+            name = st[:60]
+        where = f'{cur_impl}::' if cur_impl and kind in ('external_body', 'uninterp spec fn') and not re.search(r'\b(struct|enum)\b', ' '.join(lines[i:i+4])) else ''
+        out.append((kind, where + name, i + 1))
     return out
 
 
-def run_unit(unit_name, extra_args=(), keep=True, inject=None):
+def run_unit(unit_name, extra_args=(), keep=True, inject=None, inject_false=None, tag=''):
     """Returns a result dict.  inject: optional function(text)->text used by the vacuity self-test."""
     t0 = time.time()
     res = {'unit': unit_name, 'status': 'ok', 'undecided': [], 'obligations': [], 'errors': [],
            'wall_s': 0.0, 'solver_ms': {}, 'functions': [], 'dropped': [], 'trusted': [], 'cmd': ''}
     try:
-        u, g, text = gen.generate(unit_name)
+        u, g, text = gen.generate(unit_name, inject_false=inject_false)
     except gen.SpecError as e:
         res['status'] = 'undecided'
         res['undecided'].append(str(e))
@@ -56,7 +75,7 @@ def run_unit(unit_name, extra_args=(), keep=True, inject=None):
     if inject:
         text = inject(text, g)
     os.makedirs(CACHE, exist_ok=True)
-    path = os.path.join(CACHE, unit_name + '.rs')
+    path = os.path.join(CACHE, unit_name + tag + '.rs')
     open(path, 'w').write(text)
     cmd = ['verus', path, '--output-json', '--time', '--error-format=json', '--multiple-errors', MULTI,
            '--rlimit', RLIMIT] + list(extra_args)
